@@ -58,6 +58,11 @@ fn addr_of(w: &World, s: AddrSel, original: SocketAddr) -> SocketAddr {
         AddrSel::Original => original,
         AddrSel::Attacker(z) => attacker_addr(z),
         AddrSel::Node(k) => w.nodes[k as usize % w.nodes.len()].addr,
+        AddrSel::SameIpOtherPort(d) => {
+            let mut a = original;
+            a.set_port(original.port().wrapping_add(1 + d as u16 % 50));
+            a
+        }
     }
 }
 
@@ -133,6 +138,19 @@ pub fn mutate(w: &World, d: &Datagram, m: &Mutation) -> (Vec<u8>, Option<usize>)
                 let mut p = p.clone();
                 p.iv ^= 1u128 << (*seed % 128);
                 b = packet_encode(p, &d.to_id);
+            }
+        }
+        Mutation::ExtendAuthData { n } => {
+            if d.decoded.is_some() && hdr_end >= 39 && b.len() >= hdr_end {
+                mask_header(&dst, &mut b, hdr_end);
+                let extra = prng(d.idx, 5, 1 + *n as usize % 32);
+                let new_size = (hdr_end - 39 + extra.len()) as u16;
+                b[37..39].copy_from_slice(&new_size.to_be_bytes());
+                let tail = b.split_off(hdr_end);
+                b.extend_from_slice(&extra);
+                let new_end = b.len();
+                b.extend_from_slice(&tail);
+                mask_header(&dst, &mut b, new_end);
             }
         }
         Mutation::HandshakeRecord { variant } => {
